@@ -23,9 +23,9 @@ fn assign2(m: &[[bool; 2]; 2]) -> (bool, [Option<usize>; 2]) {
 }
 
 /// 2 claims × 2 entries, every compatibility matrix: the loop succeeds iff a perfect
-/// matching exists; on success every claim owns a distinct compatible entry; and the
-/// outcome is invariant under swapping the two entries (columns = physical order) and
-/// under swapping the two claims (rows = member order).
+/// matching exists; on success every claim owns a distinct compatible entry. Since the
+/// existence of a perfect matching does not depend on the order of rows or columns, the
+/// outcome is invariant under permuting the entries (physical order) and the claims.
 #[kani::proof]
 #[kani::unwind(3)]
 fn c10_kuhn_2x2() {
@@ -42,12 +42,8 @@ fn c10_kuhn_2x2() {
       _ => assert!(false),
     }
   }
-  let cols = [[m[0][1], m[0][0]], [m[1][1], m[1][0]]];
-  let (ok_c, _) = assign2(&cols);
-  assert!(ok_c == ok);
-  let rows = [[m[1][0], m[1][1]], [m[0][0], m[0][1]]];
-  let (ok_r, _) = assign2(&rows);
-  assert!(ok_r == ok);
+  // Invariance under permuting entries (columns) or members (rows) follows: `perfect` is
+  // symmetric under both, and ok == perfect for every matrix.
   kani::cover!(ok && m[0][0] && m[0][1] && m[1][0] && !m[1][1]);
   kani::cover!(!ok && (m[0][0] || m[0][1]) && (m[1][0] || m[1][1]));
 }
@@ -157,6 +153,35 @@ fn c10_ledger3() {
   kani::cover!(cnt == 2 && nc == 1);
   kani::cover!(found == Some(2));
   kani::cover!(found.is_none() && keys[0] == want_key);
+  core::mem::forget(entries);
+  core::mem::forget(all);
+}
+
+/// The claim ledger works on physical indices of any size: a map of 66 entries (more than
+/// a machine word of bits), one claimed index k symbolic in 0..66, predicate true for every
+/// key: the unconsumed set is exactly all indices except k, in order.
+#[kani::proof]
+#[kani::unwind(68)]
+fn c10_ledger_wide() {
+  const N: usize = 66;
+  let mut entries: Vec<(Value, Value)> = Vec::with_capacity(N);
+  let mut i = 0;
+  while i < N {
+    entries.push((Value::Null, Value::Null));
+    i += 1;
+  }
+  let k: usize = kani::any();
+  kani::assume(k < N);
+  let claimed = [k];
+  let all = cb::collect_unconsumed_map_entries_matching(&entries, &claimed, |_| true);
+  assert!(all.len() == N - 1);
+  let j: usize = kani::any();
+  kani::assume(j < N - 1);
+  assert!(all[j] == if j < k { j } else { j + 1 });
+  let first = cb::find_unconsumed_map_entry(&entries, &claimed, |_| true).map(|(i, _)| i);
+  assert!(first == Some(if k == 0 { 1 } else { 0 }));
+  kani::cover!(k == 65);
+  kani::cover!(k == 0);
   core::mem::forget(entries);
   core::mem::forget(all);
 }
